@@ -137,3 +137,21 @@ Example C16_cycle_view :
   run_prelude gcyc (vids gcyc) = PreCycle /\ run_prelude gcyc (rev (vids gcyc)) = PreCycle /\
   run_prelude gcyc [tk "w"; tk "z"; tk "x"; tk "y"] = PreCycle.
 Proof. repeat split; vm_compute; reflexivity. Qed.
+
+(* C16_progress applies in the middle of the run (b and c running, s waiting for a slot) *)
+Example C16_progress_hyps :
+  (exists l, dfs_sort g (vids g) = Some (inl l)) /\ (0 < cf_cap cf)%N /\
+  d_returned (after tr1) = false /\ (forall v, d_envlock (after tr1) v = false).
+Proof.
+  split; [eexists; exact C16_dfs_hyp|]. split; [reflexivity|]. split; [vm_compute; reflexivity|].
+  intros v. vm_compute. reflexivity.
+Qed.
+
+Example C16_progress_fires :
+  exists l st', DagProgress.productive l = true /\ dstep g cf (after tr1) l = Some st'.
+Proof.
+  destruct C16_progress_hyps as (H1 & H2 & H3 & H4).
+  assert (S : dsteps g cf (init_state []) tr1 = Some (after tr1)).
+  { unfold after. destruct (dsteps g cf (init_state []) tr1) eqn:E; [reflexivity|]. exfalso. exact (tr1_reachable E). }
+  exact (built_progress_acyclic gops cf tr1 (after tr1) S H1 H2 H3 H4).
+Qed.
